@@ -45,3 +45,9 @@ Proof.
   repeat split; try lia; try reflexivity; try (apply small_lt_P126; vm_compute; reflexivity);
     try (intros b; eapply Hs; [vm_compute; reflexivity|vm_compute; reflexivity]).
 Qed.
+
+Theorem nested_from_encode x bs : shape_ok x -> encode x = Ok bs -> len bs < P 126 -> wf_tree x /\ strict_parse bs = Some [x].
+Proof.
+  intros Hs E Hl. pose proof (wf_from_encode x bs Hs E Hl) as Hw. split; [exact Hw|].
+  destruct (nested x Hw) as (bs' & E' & Hp). rewrite E in E'. apply Ok_inj in E'. now subst bs'.
+Qed.
